@@ -260,6 +260,7 @@ func firstDiff(a, b string) string {
 //
 // One line per element, sorted.
 func actionFingerprint(fd *ast.FuncDecl) string {
+	renameScopedLocals(fd)
 	set := map[string]bool{}
 	params := map[string]bool{}
 	for _, p := range fd.Type.Params.List {
@@ -344,4 +345,110 @@ func actionFingerprint(fd *ast.FuncDecl) string {
 	}
 	sort.Strings(out)
 	return strings.Join(out, "\n")
+}
+
+// renameScopedLocals gives a local that is declared (:=) in several sibling blocks - `zero := …` in two clauses of a
+// switch - a name of its own per block, so that each is a single-definition local like `zeroOrOne` / `zeroOrMore`
+// would be. It edits the identifiers of fd in place (callers own the syntax tree they pass).
+func renameScopedLocals(fd *ast.FuncDecl) {
+	if fd.Body == nil {
+		return
+	}
+	type blk struct {
+		node ast.Node
+		defs map[string]token.Pos
+	}
+	defSites := map[string]int{}
+	var blocks []*blk
+	byNode := map[ast.Node]*blk{}
+	listOf := func(n ast.Node) bool {
+		switch n.(type) {
+		case *ast.BlockStmt, *ast.CaseClause, *ast.CommClause:
+			return true
+		}
+		return false
+	}
+	ast.Inspect(fd.Body, func(n ast.Node) bool {
+		if n == nil {
+			return true
+		}
+		if listOf(n) {
+			b := &blk{node: n, defs: map[string]token.Pos{}}
+			blocks = append(blocks, b)
+			byNode[n] = b
+		}
+		return true
+	})
+	// definitions directly in a block
+	var visit func(n ast.Node, cur *blk)
+	visit = func(n ast.Node, cur *blk) {
+		if n == nil {
+			return
+		}
+		if b := byNode[n]; b != nil {
+			cur = b
+		}
+		if as, ok := n.(*ast.AssignStmt); ok && as.Tok == token.DEFINE && cur != nil {
+			for _, l := range as.Lhs {
+				if id, ok := l.(*ast.Ident); ok && id.Name != "_" {
+					if _, dup := cur.defs[id.Name]; !dup {
+						cur.defs[id.Name] = id.Pos()
+						defSites[id.Name]++
+					}
+				}
+			}
+		}
+		ast.Inspect(n, func(m ast.Node) bool {
+			if m == nil || m == n {
+				return true
+			}
+			if _, isLit := m.(*ast.FuncLit); isLit {
+				return false
+			}
+			visit(m, cur)
+			return false
+		})
+	}
+	visit(fd.Body, nil)
+	// rename uses: innermost enclosing block that declares the name at or before the use
+	index := map[*blk]int{}
+	for i, b := range blocks {
+		index[b] = i
+	}
+	var rename func(n ast.Node, chain []*blk)
+	rename = func(n ast.Node, chain []*blk) {
+		if n == nil {
+			return
+		}
+		if b := byNode[n]; b != nil {
+			chain = append(chain[:len(chain):len(chain)], b)
+		}
+		if id, ok := n.(*ast.Ident); ok && defSites[id.Name] > 1 {
+			for k := len(chain) - 1; k >= 0; k-- {
+				if at, ok := chain[k].defs[id.Name]; ok && at <= id.Pos() {
+					id.Name = fmt.Sprintf("%s·%d", id.Name, index[chain[k]])
+					break
+				}
+			}
+			return
+		}
+		ast.Inspect(n, func(m ast.Node) bool {
+			if m == nil || m == n {
+				return true
+			}
+			switch x := m.(type) {
+			case *ast.FuncLit:
+				return false
+			case *ast.SelectorExpr:
+				rename(x.X, chain) // the selected name is a field, not a local
+				return false
+			case *ast.KeyValueExpr:
+				rename(x.Value, chain)
+				return false
+			}
+			rename(m, chain)
+			return false
+		})
+	}
+	rename(fd.Body, nil)
 }
